@@ -409,6 +409,14 @@ func h2(r *explore.Run, rep *report.R, sc string, depth int, foreignCRD bool, st
 		xrh.Reconcile(drec, nnXRD)
 		xrh.Reconcile(orec, nnXRD)
 		r.Raise()
+	case "xr-half-initialised":
+		// A second XR whose first reconcile was cut short right after its
+		// finalizer was persisted: it has the finalizer but none of the
+		// labels and references a completed reconcile gives it.
+		x2 := xrh.XR("x-new", "comp")
+		x2.SetFinalizers([]string{"composite.apiextensions.crossplane.io"})
+		x2.SetLabels(nil)
+		s.Seed(x2)
 	case "composite-crd-deleting":
 		if crd := s.Peek(simkube.ObjKey{Group: crdGK.Group, Kind: crdGK.Kind, Name: xrCRDName}); crd != nil {
 			_ = s.Client("user").Delete(ctxBG, crd)
@@ -462,8 +470,17 @@ func h2(r *explore.Run, rep *report.R, sc string, depth int, foreignCRD bool, st
 		case "xr-reconcile":
 			// Only a running controller reconciles its instances.
 			if eng.running(ctrlOf[xrCRDName]) && !s.NoMatch[xrh.XRGVK.GroupKind()] {
-				for _, x := range s.All(xrh.XRGVK.GroupKind()) {
-					xrh.Reconcile(xrec, types.NamespacedName{Name: x.GetName()})
+				xs := s.All(xrh.XRGVK.GroupKind())
+				// With several instances the controller gets to them one at
+				// a time, in any order: all of them, or only one, now.
+				only := 0
+				if len(xs) > 1 {
+					only = r.Free(len(xs)+1, fmt.Sprintf("xr-reconcile-which%d(all,one...)", step))
+				}
+				for i, x := range xs {
+					if only == 0 || only == i+1 {
+						xrh.Reconcile(xrec, types.NamespacedName{Name: x.GetName()})
+					}
 				}
 			}
 		case "claim-reconcile":
@@ -654,7 +671,7 @@ var _ = reference.Claim{}
 func TestCheck(t *testing.T) {
 	rep := report.New("C08", "model_checking")
 	rep.Meta(
-		"Four closed sub-systems, each searched by depth-bounded DFS with state-hash pruning over event sequences; every event is a transition executed by the real code. H1 (claim + XR + a dependent with a provider finalizer; Background and Foreground policy; both syncers; variant: the XR's claimRef still records an older API version of the claim): events {claim reconcile with an API fault or crash at any call, XR reconcile, user deletes the claim, user deletes the XR, one garbage-collector step (which one is a choice), the provider finalizes the dependent}. H2 (XRD with the real definition and offered reconcilers on the real ControllerEngine - over harness informers and controllers whose context tells whether they were stopped; an informer lookup of the engine may fail like an API call -, one bound claim + XR whose controllers only run while the engine says so; composite CRD ours or foreign): events {definition / offered reconcile with a fault at any call, XR / claim reconcile, user deletes the XRD / the claim, a third party deletes the composite CRD, gc step, crd-cleanup, Crossplane restarts (new engine with no controller running, new reconcilers)}; the API-server side establishes CRDs, and a CRD whose deletion was requested carries the customresourcecleanup finalizer and stays terminating until the crd-cleanup event (the API server's CRD finalizer: delete the instances, release the CRD once none is left) has seen every instance go; start states: steady, XRD deletion already requested and reconciled once, composite CRD deleted by a third party. H3 (package revision + dependency Lock, real revision reconciler and PackageDependencyManager): {reconcile with an API error at any call, user deletes the revision, deactivate, gc step}. H4 (composed Usage + using + used resource, real usage reconciler): {reconcile with fault/crash, delete usage / using / used, gc step}. Monitors at every write: claim finalizer removed only after an XR delete was issued (Foreground: XR gone); CRD deleted only with no instances and a stopped controller; controller stopped only with no instances (when the CRD is ours); XRD finalizers removed only when the CRD is gone or never ours; revision finalized only when out of the Lock; composed Usage finalized only when the using resource is gone.",
+		"Four closed sub-systems, each searched by depth-bounded DFS with state-hash pruning over event sequences; every event is a transition executed by the real code. H1 (claim + XR + a dependent with a provider finalizer; Background and Foreground policy; both syncers; variant: the XR's claimRef still records an older API version of the claim): events {claim reconcile with an API fault or crash at any call, XR reconcile, user deletes the claim, user deletes the XR, one garbage-collector step (which one is a choice), the provider finalizes the dependent}. H2 (XRD with the real definition and offered reconcilers on the real ControllerEngine - over harness informers and controllers whose context tells whether they were stopped; an informer lookup of the engine may fail like an API call -, one bound claim + XR whose controllers only run while the engine says so; composite CRD ours or foreign): events {definition / offered reconcile with a fault at any call, XR / claim reconcile, user deletes the XRD / the claim, a third party deletes the composite CRD, gc step, crd-cleanup, Crossplane restarts (new engine with no controller running, new reconcilers)}; the API-server side establishes CRDs, and a CRD whose deletion was requested carries the customresourcecleanup finalizer and stays terminating until the crd-cleanup event (the API server's CRD finalizer: delete the instances, release the CRD once none is left) has seen every instance go; start states: steady, XRD deletion already requested and reconciled once, composite CRD deleted by a third party, a second XR whose first reconcile was cut short after its finalizer was written. H3 (package revision + dependency Lock, real revision reconciler and PackageDependencyManager): {reconcile with an API error at any call, user deletes the revision, deactivate, gc step}. H4 (composed Usage + using + used resource, real usage reconciler): {reconcile with fault/crash, delete usage / using / used, gc step}. Monitors at every write: claim finalizer removed only after an XR delete was issued (Foreground: XR gone); CRD deleted only with no instances and a stopped controller; controller stopped only with no instances (when the CRD is ours); XRD finalizers removed only when the CRD is gone or never ours; revision finalized only when out of the Lock; composed Usage finalized only when the using resource is gone.",
 		[]string{"simkube models the API server; the Kubernetes garbage collector acts only through explicit gc-step events", "a dynamic controller reconciles its instances only while the (recording) engine reports it running", "reconciles are atomic events except for the one injected fault / crash"},
 		[]string{"simkube", "real ControllerEngine over fake informers / controllers (package engh)"},
 	)
@@ -682,8 +699,11 @@ func TestCheck(t *testing.T) {
 	}
 	for _, foreign := range []bool{false, true} {
 		foreign := foreign
-		for _, start := range []string{"", "xrd-deleting", "composite-crd-deleting"} {
+		for _, start := range []string{"", "xrd-deleting", "composite-crd-deleting", "xr-half-initialised"} {
 			start := start
+			if start == "xr-half-initialised" && foreign {
+				continue
+			}
 			name := fmt.Sprintf("H2/foreign-crd=%v", foreign)
 			if start != "" {
 				name += "/start=" + start
